@@ -11,78 +11,111 @@
 EXTENDS Integers, Sequences, FiniteSets, TLC
 CONSTANTS Calls, Vals,
           CMode, SMode,   \* "none" | "legacy" | "mw" | "prepost"
-          NC, NS          \* number of filters per side (mw: chain length; prepost: N pre + N post)
+          NC, NS          \* most filters that get registered per side (mw: chain length; prepost: N pre + N post)
 VARIABLES cpc,       \* client side: "idle" | "cin" | "wire" | "wait" | "cout" | "done"
           spc,       \* server side: "none" | "sin" | "impl" | "run" | "sout" | "reply" | "fin"
           kind,      \* "twoway" | "oneway"
           sent, got, produced, returned,
           cfl, sfl,  \* filter event logs per call: sequences of <<phase, index>>
-          implCount, replies
-vars == <<cpc, spc, kind, sent, got, produced, returned, cfl, sfl, implCount, replies>>
+          implCount, replies,
+          creg, sreg,  \* filters registered so far per side, <<n_in, n_out>>: a legacy filter or a middleware is entered and left
+                       \* (both numbers grow together), pre and post filters are registered separately.  Filters are registered
+                       \* while the process runs, between calls, and cannot be unregistered.
+          cn, sn       \* per call: what was registered when the call was made
+vars == <<cpc, spc, kind, sent, got, produced, returned, cfl, sfl, implCount, replies, creg, sreg, cn, sn>>
 None == [ok |-> TRUE, v |-> "none"]
 Init == /\ cpc = [c \in Calls |-> "idle"] /\ spc = [c \in Calls |-> "none"] /\ kind = [c \in Calls |-> "twoway"]
         /\ sent = [c \in Calls |-> "none"] /\ got = [c \in Calls |-> "none"]
         /\ produced = [c \in Calls |-> None] /\ returned = [c \in Calls |-> None]
         /\ cfl = [c \in Calls |-> <<>>] /\ sfl = [c \in Calls |-> <<>>]
         /\ implCount = [c \in Calls |-> 0] /\ replies = [c \in Calls |-> 0]
-InSeq(mode, n) == CASE mode = "none" -> <<>>
-                    [] mode = "legacy" -> << <<"enter", 1>> >>
-                    [] mode = "mw" -> [i \in 1..n |-> <<"enter", i>>]
-                    [] mode = "prepost" -> [i \in 1..n |-> <<"pre", i>>]
-OutSeq(mode, n) == CASE mode = "none" -> <<>>
-                     [] mode = "legacy" -> << <<"exit", 1>> >>
-                     [] mode = "mw" -> [i \in 1..n |-> <<"exit", n + 1 - i>>]
-                     [] mode = "prepost" -> [i \in 1..n |-> <<"post", i>>]
-CI == InSeq(CMode, NC)   CO == OutSeq(CMode, NC)   SI == InSeq(SMode, NS)   SO == OutSeq(SMode, NS)
+        /\ creg = <<0, 0>> /\ sreg = <<0, 0>> /\ cn = [c \in Calls |-> <<0, 0>>] /\ sn = [c \in Calls |-> <<0, 0>>]
+\* the filter events a call has to show, given what was registered when it was made (registration order; a middleware
+\* chain and the legacy filter leave in the reverse order).  reg = <<n_in, n_out>>; ExpEv(mode, reg, i) is the i-th event.
+\* (Written with arithmetic instead of sequences: the trace specification evaluates this for 48 calls in every state.)
+ExpEv(mode, reg, i) == IF i <= reg[1] THEN <<IF mode = "prepost" THEN "pre" ELSE "enter", i>>
+                       ELSE IF mode = "prepost" THEN <<"post", i - reg[1]>> ELSE <<"exit", reg[2] + 1 - (i - reg[1])>>
+MaxReg(mode, n) == CASE mode = "none" -> 0 [] mode = "legacy" -> 1 [] OTHER -> n
+NCI(c) == cn[c][1]   NCO(c) == cn[c][2]   NSI(c) == sn[c][1]   NSO(c) == sn[c][2]    \* how many events on the way in / out
+CEv(c, i) == ExpEv(CMode, cn[c], i)   SEv(c, i) == ExpEv(SMode, sn[c], i)
 
+\* ---------------------------------------------------------------- registration (between calls)
+Quiet == \A c \in Calls : (cpc[c] = "idle" /\ spc[c] = "none") \/ (cpc[c] = "done" /\ spc[c] = "fin")
+RegOK(mode, n, old, new) == /\ new[1] >= old[1] /\ new[2] >= old[2] /\ new[1] <= MaxReg(mode, n) /\ new[2] <= MaxReg(mode, n)
+                            /\ (mode # "prepost" => new[1] = new[2])
+RegisterC(new) == /\ Quiet /\ RegOK(CMode, NC, creg, new) /\ creg' = new
+                  /\ UNCHANGED <<cpc, spc, kind, sent, got, produced, returned, cfl, sfl, implCount, replies, sreg, cn, sn>>
+RegisterS(new) == /\ Quiet /\ RegOK(SMode, NS, sreg, new) /\ sreg' = new
+                  /\ UNCHANGED <<cpc, spc, kind, sent, got, produced, returned, cfl, sfl, implCount, replies, creg, cn, sn>>
+
+\* ---------------------------------------------------------------- one call
 Start(c, k, v) == /\ cpc[c] = "idle" /\ cpc' = [cpc EXCEPT ![c] = "cin"] /\ kind' = [kind EXCEPT ![c] = k] /\ sent' = [sent EXCEPT ![c] = v]
-                  /\ UNCHANGED <<spc, got, produced, returned, cfl, sfl, implCount, replies>>
+                  /\ cn' = [cn EXCEPT ![c] = creg] /\ sn' = [sn EXCEPT ![c] = sreg]
+                  /\ UNCHANGED <<spc, got, produced, returned, cfl, sfl, implCount, replies, creg, sreg>>
 \* a client filter event on the way in (ev = the next event of the registered order)
-CFilterIn(c, ev) == /\ cpc[c] = "cin" /\ Len(cfl[c]) < Len(CI) /\ cfl' = [cfl EXCEPT ![c] = Append(@, ev)]
-                    /\ UNCHANGED <<cpc, spc, kind, sent, got, produced, returned, sfl, implCount, replies>>
-CInDone(c) == /\ cpc[c] = "cin" /\ Len(cfl[c]) >= Len(CI) /\ cpc' = [cpc EXCEPT ![c] = "wire"]
-              /\ UNCHANGED <<spc, kind, sent, got, produced, returned, cfl, sfl, implCount, replies>>
+CFilterIn(c, ev) == /\ cpc[c] = "cin" /\ Len(cfl[c]) < NCI(c) /\ cfl' = [cfl EXCEPT ![c] = Append(@, ev)]
+                    /\ UNCHANGED <<cpc, spc, kind, sent, got, produced, returned, sfl, implCount, replies, creg, sreg, cn, sn>>
+\* (the ...Any forms leave out the guard "every registered filter has been seen": the trace specification takes them when the
+\*  recorded run has moved on regardless, and FilterOrder judges the state that results)
+CInDoneAny(c) == /\ cpc[c] = "cin" /\ cpc' = [cpc EXCEPT ![c] = "wire"]
+                 /\ UNCHANGED <<spc, kind, sent, got, produced, returned, cfl, sfl, implCount, replies, creg, sreg, cn, sn>>
+CInDone(c) == Len(cfl[c]) >= NCI(c) /\ CInDoneAny(c)
 \* the request goes onto the wire: the server side starts; a one-way caller does not wait
 Wire(c) == /\ cpc[c] = "wire" /\ spc' = [spc EXCEPT ![c] = "sin"]
            /\ cpc' = [cpc EXCEPT ![c] = IF kind[c] = "twoway" THEN "wait" ELSE "cout"]
-           /\ UNCHANGED <<kind, sent, got, produced, returned, cfl, sfl, implCount, replies>>
-SFilterIn(c, ev) == /\ spc[c] = "sin" /\ Len(sfl[c]) < Len(SI) /\ sfl' = [sfl EXCEPT ![c] = Append(@, ev)]
-                    /\ UNCHANGED <<cpc, spc, kind, sent, got, produced, returned, cfl, implCount, replies>>
-SInDone(c) == /\ spc[c] = "sin" /\ Len(sfl[c]) >= Len(SI) /\ spc' = [spc EXCEPT ![c] = "impl"]
-              /\ UNCHANGED <<cpc, kind, sent, got, produced, returned, cfl, sfl, implCount, replies>>
+           /\ UNCHANGED <<kind, sent, got, produced, returned, cfl, sfl, implCount, replies, creg, sreg, cn, sn>>
+SFilterIn(c, ev) == /\ spc[c] = "sin" /\ Len(sfl[c]) < NSI(c) /\ sfl' = [sfl EXCEPT ![c] = Append(@, ev)]
+                    /\ UNCHANGED <<cpc, spc, kind, sent, got, produced, returned, cfl, implCount, replies, creg, sreg, cn, sn>>
+SInDoneAny(c) == /\ spc[c] = "sin" /\ spc' = [spc EXCEPT ![c] = "impl"]
+                 /\ UNCHANGED <<cpc, kind, sent, got, produced, returned, cfl, sfl, implCount, replies, creg, sreg, cn, sn>>
+SInDone(c) == Len(sfl[c]) >= NSI(c) /\ SInDoneAny(c)
 ImplCall(c, g) == /\ spc[c] = "impl" /\ got' = [got EXCEPT ![c] = g] /\ implCount' = [implCount EXCEPT ![c] = @ + 1]
                   /\ spc' = [spc EXCEPT ![c] = "run"]
-                  /\ UNCHANGED <<cpc, kind, sent, produced, returned, cfl, sfl, replies>>
+                  /\ UNCHANGED <<cpc, kind, sent, produced, returned, cfl, sfl, replies, creg, sreg, cn, sn>>
 ImplRet(c, p) == /\ spc[c] = "run" /\ produced' = [produced EXCEPT ![c] = p] /\ spc' = [spc EXCEPT ![c] = "sout"]
-                 /\ UNCHANGED <<cpc, kind, sent, got, returned, cfl, sfl, implCount, replies>>
-SFilterOut(c, ev) == /\ spc[c] = "sout" /\ Len(sfl[c]) < Len(SI) + Len(SO) /\ sfl' = [sfl EXCEPT ![c] = Append(@, ev)]
-                     /\ UNCHANGED <<cpc, spc, kind, sent, got, produced, returned, cfl, implCount, replies>>
-SOutDone(c) == /\ spc[c] = "sout" /\ Len(sfl[c]) >= Len(SI) + Len(SO) /\ spc' = [spc EXCEPT ![c] = "reply"]
-               /\ UNCHANGED <<cpc, kind, sent, got, produced, returned, cfl, sfl, implCount, replies>>
+                 /\ UNCHANGED <<cpc, kind, sent, got, returned, cfl, sfl, implCount, replies, creg, sreg, cn, sn>>
+SFilterOut(c, ev) == /\ spc[c] = "sout" /\ Len(sfl[c]) < (NSI(c) + NSO(c)) /\ sfl' = [sfl EXCEPT ![c] = Append(@, ev)]
+                     /\ UNCHANGED <<cpc, spc, kind, sent, got, produced, returned, cfl, implCount, replies, creg, sreg, cn, sn>>
+SOutDoneAny(c) == /\ spc[c] = "sout" /\ spc' = [spc EXCEPT ![c] = "reply"]
+                  /\ UNCHANGED <<cpc, kind, sent, got, produced, returned, cfl, sfl, implCount, replies, creg, sreg, cn, sn>>
+SOutDone(c) == Len(sfl[c]) >= (NSI(c) + NSO(c)) /\ SOutDoneAny(c)
 \* two-way: the reply is written; one-way: nothing is written
 ReplyWritten(c) == /\ spc[c] = "reply" /\ kind[c] = "twoway" /\ replies' = [replies EXCEPT ![c] = @ + 1] /\ spc' = [spc EXCEPT ![c] = "fin"]
-                   /\ UNCHANGED <<cpc, kind, sent, got, produced, returned, cfl, sfl, implCount>>
+                   /\ UNCHANGED <<cpc, kind, sent, got, produced, returned, cfl, sfl, implCount, creg, sreg, cn, sn>>
 NoReply(c) == /\ spc[c] = "reply" /\ kind[c] = "oneway" /\ spc' = [spc EXCEPT ![c] = "fin"]
-              /\ UNCHANGED <<cpc, kind, sent, got, produced, returned, cfl, sfl, implCount, replies>>
+              /\ UNCHANGED <<cpc, kind, sent, got, produced, returned, cfl, sfl, implCount, replies, creg, sreg, cn, sn>>
 ReplyArrives(c) == /\ cpc[c] = "wait" /\ spc[c] = "fin" /\ cpc' = [cpc EXCEPT ![c] = "cout"]
-                   /\ UNCHANGED <<spc, kind, sent, got, produced, returned, cfl, sfl, implCount, replies>>
-CFilterOut(c, ev) == /\ cpc[c] = "cout" /\ Len(cfl[c]) < Len(CI) + Len(CO) /\ cfl' = [cfl EXCEPT ![c] = Append(@, ev)]
-                     /\ UNCHANGED <<cpc, spc, kind, sent, got, produced, returned, sfl, implCount, replies>>
+                   /\ UNCHANGED <<spc, kind, sent, got, produced, returned, cfl, sfl, implCount, replies, creg, sreg, cn, sn>>
+CFilterOut(c, ev) == /\ cpc[c] = "cout" /\ Len(cfl[c]) < (NCI(c) + NCO(c)) /\ cfl' = [cfl EXCEPT ![c] = Append(@, ev)]
+                     /\ UNCHANGED <<cpc, spc, kind, sent, got, produced, returned, sfl, implCount, replies, creg, sreg, cn, sn>>
 \* the proxy call returns r to the caller
-End(c, r) == /\ cpc[c] = "cout" /\ Len(cfl[c]) >= Len(CI) + Len(CO) /\ returned' = [returned EXCEPT ![c] = r]
-             /\ cpc' = [cpc EXCEPT ![c] = "done"]
-             /\ UNCHANGED <<spc, kind, sent, got, produced, cfl, sfl, implCount, replies>>
+EndAny(c, r) == /\ cpc[c] = "cout" /\ returned' = [returned EXCEPT ![c] = r]
+                /\ cpc' = [cpc EXCEPT ![c] = "done"]
+                /\ UNCHANGED <<spc, kind, sent, got, produced, cfl, sfl, implCount, replies, creg, sreg, cn, sn>>
+End(c, r) == Len(cfl[c]) >= (NCI(c) + NCO(c)) /\ EndAny(c, r)
 OneWayOk == [ok |-> TRUE, v |-> "oneway"]
-Next == \E c \in Calls :
+Pairs(n) == (0..n) \X (0..n)
+Next == \/ \E new \in Pairs(NC) : new # creg /\ RegisterC(new)
+        \/ \E new \in Pairs(NS) : new # sreg /\ RegisterS(new)
+        \/ \E c \in Calls :
            \/ \E k \in {"twoway", "oneway"}, v \in Vals : Start(c, k, v)
-           \/ (Len(cfl[c]) < Len(CI) /\ CFilterIn(c, CI[Len(cfl[c]) + 1])) \/ CInDone(c) \/ Wire(c)
-           \/ (Len(sfl[c]) < Len(SI) /\ SFilterIn(c, SI[Len(sfl[c]) + 1])) \/ SInDone(c)
+           \/ (Len(cfl[c]) < NCI(c) /\ CFilterIn(c, CEv(c, Len(cfl[c]) + 1))) \/ CInDone(c) \/ Wire(c)
+           \/ (Len(sfl[c]) < NSI(c) /\ SFilterIn(c, SEv(c, Len(sfl[c]) + 1))) \/ SInDone(c)
            \/ ImplCall(c, sent[c]) \/ (\E ok \in BOOLEAN, v \in Vals : ImplRet(c, [ok |-> ok, v |-> v]))
-           \/ (Len(sfl[c]) - Len(SI) < Len(SO) /\ spc[c] = "sout" /\ SFilterOut(c, SO[Len(sfl[c]) - Len(SI) + 1])) \/ SOutDone(c)
+           \/ (Len(sfl[c]) - NSI(c) < NSO(c) /\ spc[c] = "sout" /\ SFilterOut(c, SEv(c, Len(sfl[c]) + 1))) \/ SOutDone(c)
            \/ ReplyWritten(c) \/ NoReply(c) \/ ReplyArrives(c)
-           \/ (Len(cfl[c]) - Len(CI) < Len(CO) /\ cpc[c] = "cout" /\ CFilterOut(c, CO[Len(cfl[c]) - Len(CI) + 1]))
+           \/ (Len(cfl[c]) - NCI(c) < NCO(c) /\ cpc[c] = "cout" /\ CFilterOut(c, CEv(c, Len(cfl[c]) + 1)))
            \/ End(c, IF kind[c] = "twoway" THEN produced[c] ELSE OneWayOk)
 Spec == Init /\ [][Next]_vars /\ WF_vars(Next)
+\* the usual start-up pattern: everything is registered before the first call
+InitFull == /\ cpc = [c \in Calls |-> "idle"] /\ spc = [c \in Calls |-> "none"] /\ kind = [c \in Calls |-> "twoway"]
+            /\ sent = [c \in Calls |-> "none"] /\ got = [c \in Calls |-> "none"]
+            /\ produced = [c \in Calls |-> None] /\ returned = [c \in Calls |-> None]
+            /\ cfl = [c \in Calls |-> <<>>] /\ sfl = [c \in Calls |-> <<>>]
+            /\ implCount = [c \in Calls |-> 0] /\ replies = [c \in Calls |-> 0]
+            /\ creg = <<MaxReg(CMode, NC), MaxReg(CMode, NC)>> /\ sreg = <<MaxReg(SMode, NS), MaxReg(SMode, NS)>>
+            /\ cn = [c \in Calls |-> <<0, 0>>] /\ sn = [c \in Calls |-> <<0, 0>>]
+SpecFull == InitFull /\ [][Next]_vars /\ WF_vars(Next)
 
 \* ---------------------------------------------------------------- properties (C01)
 \* the implementation receives exactly what the caller passed
@@ -93,11 +126,17 @@ CallerSeesImpl == \A c \in Calls : (cpc[c] = "done" /\ kind[c] = "twoway") => re
 ExactlyOnce == \A c \in Calls : /\ implCount[c] <= 1 /\ replies[c] <= (IF kind[c] = "twoway" THEN 1 ELSE 0)
                                 /\ (cpc[c] = "done" /\ kind[c] = "twoway") => (implCount[c] = 1 /\ replies[c] = 1)
                                 /\ spc[c] = "fin" => implCount[c] = 1
-\* pass-through filters see the call exactly once each, in registration order
-FilterOrder == \A c \in Calls : /\ \A i \in 1..Len(cfl[c]) : cfl[c][i] = (CI \o CO)[i]
-                                /\ \A i \in 1..Len(sfl[c]) : sfl[c][i] = (SI \o SO)[i]
-                                /\ cpc[c] = "done" => Len(cfl[c]) = Len(CI) + Len(CO)
-                                /\ spc[c] = "fin" => Len(sfl[c]) = Len(SI) + Len(SO)
-TypeOK == \A c \in Calls : Len(cfl[c]) <= Len(CI) + Len(CO) /\ Len(sfl[c]) <= Len(SI) + Len(SO)
-AllDone == <>(\A c \in Calls : cpc[c] \in {"idle", "done"} /\ spc[c] \in {"none", "fin"})
+\* pass-through filters see the call exactly once each, in registration order: the filters that were registered when the
+\* call was made -- all of them, also those registered after earlier calls had gone through
+FilterOrder == \A c \in Calls : /\ \A i \in 1..Len(cfl[c]) : i <= NCI(c) + NCO(c) /\ cfl[c][i] = CEv(c, i)
+                                /\ \A i \in 1..Len(sfl[c]) : i <= NSI(c) + NSO(c) /\ sfl[c][i] = SEv(c, i)
+                                /\ cpc[c] \in {"wire", "wait", "cout", "done"} => Len(cfl[c]) >= NCI(c)
+                                /\ cpc[c] = "done" => Len(cfl[c]) = (NCI(c) + NCO(c))
+                                /\ spc[c] \in {"impl", "run", "sout", "reply", "fin"} => Len(sfl[c]) >= NSI(c)
+                                /\ spc[c] \in {"reply", "fin"} => Len(sfl[c]) = (NSI(c) + NSO(c))
+TypeOK == /\ \A c \in Calls : Len(cfl[c]) <= (NCI(c) + NCO(c)) /\ Len(sfl[c]) <= (NSI(c) + NSO(c))
+          /\ creg \in Pairs(MaxReg(CMode, NC)) /\ sreg \in Pairs(MaxReg(SMode, NS))
+          /\ \A c \in Calls : cn[c][1] <= creg[1] /\ cn[c][2] <= creg[2] /\ sn[c][1] <= sreg[1] /\ sn[c][2] <= sreg[2]
+\* every call that was started completes on both sides
+AllDone == \A c \in Calls : (cpc[c] # "idle") ~> (cpc[c] = "done" /\ spc[c] = "fin")
 =============================================================================
